@@ -191,6 +191,70 @@ def np_round(eng, st, args, kwargs, line):
     raise OutOfSubset(f"line {line}: np.round of {a!r}")
 
 
+def sympad_term(eng, st, a, left):
+    """Raw array term of np.pad(a, (left, right), "symmetric"): element j is a[sym(j - left)] where sym reflects the
+    index symmetrically about both ends (edge sample repeated; period 2n)."""
+    j = z3.Int("j!pad")
+    n = a.n
+    m = (j - left) % (2 * n)
+    src = z3.If(m < n, m, 2 * n - 1 - m)
+    return z3.Lambda([j], z3.Select(st.heap[a.obj], eng.arr_index_term(a, src)))
+
+
+@model("numpy.pad")
+def np_pad(eng, st, args, kwargs, line):
+    eng.assume_tag("A-NP")
+    a, width = args[0], args[1]
+    mode = args[2] if len(args) > 2 else kwargs.get("mode")
+    if not (isinstance(a, VArr) and isinstance(width, VTuple) and len(width.items) == 2 and isinstance(mode, VStr)
+            and mode.s == "symmetric"):
+        raise OutOfSubset(f"line {line}: np.pad form")
+    left, right = (eng.to_int(w, line) for w in width.items)
+    eng.oblig(st, f"pad@{line}", z3.And(left >= 0, right >= 0), line, label="non-negative pad widths (ValueError)")
+    st.assume(z3.And(left >= 0, right >= 0))
+    # numpy cannot reflect an empty array
+    eng.oblig(st, f"pad@{line}", z3.Or(a.n >= 1, z3.And(left == 0, right == 0)), line, label="non-empty input")
+    st.assume(a.n >= 1)
+    meta = st.hmeta[a.obj]
+    return val(st, new_array(eng, st, [smt.som(a.n + left + right)], meta["kind"], meta.get("dtype"),
+                             sympad_term(eng, st, a, left), "pad"))
+
+
+MOVE = {}
+
+
+def move_fn(kind):
+    if kind not in MOVE:
+        MOVE[kind] = z3.Function("move_" + kind, z3.ArraySort(INT, REAL), INT, INT, REAL)
+    return MOVE[kind]
+
+
+def _move(kind):
+    def mdl(eng, st, args, kwargs, line):
+        """bottleneck.move_mean / move_median(a, window): element k >= window-1 is the mean / median of
+        a[k-window+1 .. k] (uninterpreted function of the array, the first index and the width); earlier elements
+        are NaN (left unconstrained)."""
+        eng.assume_tag("A-NP")
+        a = args[0]
+        w = eng.to_int(args[1] if len(args) > 1 else kwargs["window"], line)
+        if not (isinstance(a, VArr) and st.hmeta[a.obj]["kind"] == "real" and smt.conc_int(a.stride) == 1):
+            raise OutOfSubset(f"line {line}: move_{kind} form")
+        eng.oblig(st, f"move@{line}", z3.And(w >= 1, w <= a.n), line, label="1 <= window <= len (ValueError)")
+        st.assume(z3.And(w >= 1, w <= a.n))
+        k = z3.Int("k!mv")
+        early = z3.Const(f"nan_{kind}", z3.ArraySort(INT, REAL))
+        base = st.heap[a.obj]
+        if smt.conc_int(a.off) != 0:
+            raise OutOfSubset(f"line {line}: move_{kind} of a view")
+        el = z3.If(k >= w - 1, move_fn(kind)(base, k - w + 1, w), z3.Select(early, k))
+        return val(st, new_array(eng, st, [a.n], "real", st.hmeta[a.obj].get("dtype"), z3.Lambda([k], el), "move"))
+    return mdl
+
+
+MODELS["bottleneck.move_mean"] = _move("mean")
+MODELS["bottleneck.move_median"] = _move("median")
+
+
 @model("numpy.arange")
 def np_arange(eng, st, args, kwargs, line):
     eng.assume_tag("A-NP")
@@ -370,6 +434,46 @@ def _pointwise2(name):
 
 MODELS["numpy.maximum"] = _pointwise2("maximum")
 MODELS["numpy.minimum"] = _pointwise2("minimum")
+
+
+def _logical(name):
+    def f(eng, st, args, kwargs, line):
+        """np.logical_and / logical_or of boolean arrays (or a scalar), element-wise."""
+        eng.assume_tag("A-NP")
+        a, b = args[0], args[1]
+        arr = a if isinstance(a, VArr) else b
+        if not isinstance(arr, VArr):
+            raise OutOfSubset(f"line {line}: numpy.{name} of scalars")
+        if isinstance(a, VArr) and isinstance(b, VArr):
+            eng.oblig(st, f"shape@{line}", a.n == b.n, line, label="broadcast")
+            st.assume(a.n == b.n)
+        j = z3.Int("j!lg")
+
+        def el(x):
+            if isinstance(x, VArr):
+                if st.hmeta[x.obj]["kind"] != "bool":
+                    raise OutOfSubset(f"line {line}: numpy.{name} of a non-boolean array")
+                return z3.Select(st.heap[x.obj], eng.arr_index_term(x, j))
+            return eng.to_bool(x)
+        x, y = el(a), el(b)
+        raw = z3.And(x, y) if name == "logical_and" else z3.Or(x, y)
+        return val(st, new_array(eng, st, [arr.n], "bool", "b1", z3.Lambda([j], raw), name))
+    return f
+
+
+MODELS["numpy.logical_and"] = _logical("logical_and")
+MODELS["numpy.logical_or"] = _logical("logical_or")
+
+
+@model("numpy.logical_or.reduce")
+def np_logical_or_reduce(eng, st, args, kwargs, line):
+    items = args[0].items if isinstance(args[0], (VTuple, VList)) else None
+    if not items:
+        raise OutOfSubset(f"line {line}: logical_or.reduce form")
+    acc = items[0]
+    for x in items[1:]:
+        acc = MODELS["numpy.logical_or"](eng, st, [acc, x], {}, line)[0][1].value
+    return val(st, acc)
 
 
 @model("numpy.modf")
